@@ -509,10 +509,20 @@ def _sort_by(ex, args, f):
     v = deref_all(ex, args[0])
     clo = deref_all(ex, args[1])
     items = v.items
-    # stable insertion sort driven by the real comparator closure
+    by_key = "sort_by_key" in f or "sort_by_cached_key" in f
+    # stable insertion sort driven by the real comparator closure (sort_by) or by the key closure and the keys' order (sort_by_key)
     for i in range(1, len(items)):
         j = i
         while j > 0:
+            if by_key:
+                ka = ex.call_closure(clo, [Ref(Cell(items[j - 1]))])
+                kb = ex.call_closure(clo, [Ref(Cell(items[j]))])
+                lt, eq = _ord_terms(ex, kb, ka)          # swap only when the later key is strictly smaller
+                if not ex.decide(lt):
+                    break
+                items[j - 1], items[j] = items[j], items[j - 1]
+                j -= 1
+                continue
             o = ex.call_closure(clo, [Ref(Cell(items[j - 1])), Ref(Cell(items[j]))])
             if o.variant != "Greater":
                 break
